@@ -287,6 +287,8 @@ class Check:
             "wall_s": round(time.time() - self.t0, 3),
             "violations": n_new,
         }
+        if os.environ.get("VERIF_SELFTEST"):
+            return      # a run against a scratch variant (selftest.py, sweeps) describes that variant: it must not replace the evidence
         out = VERIF / "evidence"
         out.mkdir(exist_ok=True)
         (out / f"{self.pid}.json").write_text(json.dumps(ev, indent=1, default=str))
